@@ -223,7 +223,9 @@ impl Resolver<'_> {
     }
 
     fn resolve_ident_wildcard(&mut self, ident: &Ident) -> Result<Ident, String> {
-        let ident_self = ident.clone().pop().unwrap() + Ident::from_name(NS_SELF);
+        // a `*` that is not preceded by a relation has no parent
+        let relation = (ident.clone().pop()).ok_or_else(|| format!("Unknown relation {ident}"))?;
+        let ident_self = relation + Ident::from_name(NS_SELF);
         let mut res = self.root_mod.module.lookup(&ident_self);
         if res.contains(&ident_self) {
             res = HashSet::from_iter([ident_self]);
